@@ -22,7 +22,9 @@ CHECKS = {
     },
     "ACTIONSMOKE": {"runs": [dict(ACTION, entries=["HSmoke"])], "bounds": {}, "assumptions": []},
     "C17": {
-        "runs": [dict(pkg="./pkg/provenance", files=["pkg/provenance/h_c17_verify.go"], entries=["H17Verify"], bounds_quick={"entries": 2}, bounds_thorough={"entries": 3})],
+        "runs": [dict(pkg="./pkg/provenance", files=["pkg/provenance/h_c17_verify.go"], entries=["H17Verify"], bounds_quick={"entries": 2}, bounds_thorough={"entries": 3}),
+                 dict(pkg="./pkg/downloader", files=["pkg/downloader/h_c19_resolve.go"], entries=["H19Download"], limits={"max_instrs": 20000000, "max_decisions": 3000},
+                      optional_sites=["creds/only-to-repository-origin", "creds/only-when-configured", "creds/sent-to-own-repository"])],
         "bounds": {}, "assumptions": [],
     },
     "C18": {
@@ -114,7 +116,9 @@ CHECKS = {
     },
     "C19": {
         "runs": [dict(pkg="./pkg/getter", files=["pkg/getter/h_c19_get.go"], entries=["H19Get"], bounds_quick={"hostlen": 1}, bounds_thorough={"hostlen": 2}, optional_sites=["rejected/no-request-sent"],
-                      limits={"max_instrs": 20000000, "max_decisions": 3000})],
+                      limits={"max_instrs": 20000000, "max_decisions": 3000}),
+                 dict(pkg="./pkg/downloader", files=["pkg/downloader/h_c19_resolve.go"], entries=["H19Download"], limits={"max_instrs": 20000000, "max_decisions": 3000},
+                      optional_sites=["verify/never-does-not-fetch-provenance", "verify/always-fails-without-valid-provenance", "verify/if-possible-fails-on-invalid-provenance", "verify/later-fetches-but-does-not-check"])],
         "bounds": {}, "assumptions": [],
     },
     "C20": {
